@@ -1,6 +1,7 @@
 package main
 
 import (
+	"fmt"
 	"os"
 	"go/token"
 	"go/types"
@@ -66,6 +67,7 @@ type appendTarget struct {
 	phi   *ssa.Phi
 	cell  *ssa.Alloc
 	field *types.Var
+	root  *ssa.Alloc // for a field target: the local object the field belongs to, if any
 }
 
 // derivesFromTarget: v is the target's current value (through phis, re-slicing, conversions, interface boxing).
@@ -126,7 +128,17 @@ func appendTargets(a ssa.Value, H *ssa.BasicBlock) []appendTarget {
 				out = append(out, appendTarget{desc: "variable " + ad.Comment, cell: ad})
 			case *ssa.FieldAddr:
 				fv := fieldVar(ad.X.Type(), ad.Field)
-				out = append(out, appendTarget{desc: "field " + fv.Name(), field: fv})
+				var root *ssa.Alloc
+				var base ssa.Value = ad.X
+				for {
+					if b, ok := base.(*ssa.FieldAddr); ok {
+						base = b.X
+						continue
+					}
+					break
+				}
+				root, _ = base.(*ssa.Alloc)
+				out = append(out, appendTarget{desc: "field " + fv.Name(), field: fv, root: root})
 			}
 		}
 	}
@@ -242,9 +254,22 @@ func unorderedLoops(fn *ssa.Function, unorderedList func(ssa.Value) bool) []mapR
 			}
 		}
 		for _, t := range targets {
+			// a cell created inside this loop's body is a per-iteration temporary of this loop: what order it ends up in is
+			// decided by the inner loop that fills it (checked on its own), not by this loop
+			if t.cell != nil && member[t.cell.Block()] {
+				continue
+			}
+			if t.root != nil && member[t.root.Block()] {
+				continue
+			}
 			if !sortedFrom(exits, t) {
 				m.sorted = false
 				m.unsorted = append(m.unsorted, t.desc)
+			}
+		}
+		if os.Getenv("VERIF_DEBUG_C17") != "" && strings.Contains(fn.String(), os.Getenv("VERIF_DEBUG_C17")) {
+			for _, t := range targets {
+				fmt.Printf("C17DBG %s loop@%v target=%s sorted=%v exits=%d\n", fn.Name(), fn.Prog.Fset.Position(m.pos), t.desc, sortedFrom(exits, t), len(exits))
 			}
 		}
 		sort.Strings(m.unsorted)
@@ -496,6 +521,13 @@ func c17r1(c *Ctx) {
 	_ = os.Getenv
 	armed[istioMod+"/"+pkgCore] = true
 	armed[istioMod+"/pilot/pkg/networking/grpcgen"] = true
+	armed[istioMod+"/pilot/pkg/networking/plugin/authn"] = true
+	armed[istioMod+"/pilot/pkg/security/authz/builder"] = true
+	if extra := os.Getenv("VERIF_C17_ARM_EXTRA"); extra != "" { // development: list candidates in further packages
+		for _, e := range strings.Split(extra, ",") {
+			armed[istioMod+"/"+e] = true
+		}
+	}
 	// frozen exceptions: function + ranged expression -> reason the order does not reach generated bytes
 	except := map[string]string{
 		"(*pilot/pkg/xds.DiscoveryServer).Clients|field adsClients": "list of connections for the push fan-out and debug pages; not part of any generated resource",
@@ -510,6 +542,7 @@ func c17r1(c *Ctx) {
 		"(*pilot/pkg/networking/grpcgen.GrpcConfigGenerator).Generate|UnsortedList|passed to BuildListeners":     "the names only fill a map (newListenerNameFilter); outbound listeners follow SidecarScope.Services() x sets.SortedList(RequestedNames)",
 		"(*pilot/pkg/networking/grpcgen.GrpcConfigGenerator).Generate|UnsortedList|passed to BuildClusters":      "the names only fill a map (newClusterFilter); the cluster order is decided in BuildClusters (repaired)",
 		"pilot/pkg/networking/core.mergeAllVirtualHosts|param vHostPortMap|local virtualHosts":                   "the only caller chain ends in util.SortVirtualHosts on unique names (httproute.go); the gRPC caller never passes port 0",
+		"pilot/pkg/security/authz/builder.getExtAuthz|param resolved|local li": "the list only appears in an error message",
 		"pilot/pkg/networking/core.selectVirtualServices|param servicesByName|local wcSvcHosts":                  "wcSvcHosts is only read by slices.ContainsFunc (any-match); the output follows the input slice order",
 		"(*pilot/pkg/xds.StatusGen).handleInternalRequest|UnsortedList|element picked by position": "the request is rejected unless the set has exactly one element (len check two lines above)",
 		"pilot/pkg/xds.parseAndValidateDebugRequest|UnsortedList|element picked by position":      "validateProxyAuthentication rejects the request unless the set has exactly one element",
